@@ -830,7 +830,7 @@ class Interp(object):
                 return AV.const(n['cv'])
             raise Unsupported('member %s at %s' % (r, fn.loc(i)))
         if k == 'CXXDefaultArgExpr':
-            return AV.const(0)
+            return AV.const(n.get('cv', 0))
         if k == 'CXXThrowExpr':
             raise _Return(('throw', fn.loc(i)))
         if k == 'UnaryExprOrTypeTraitExpr':
